@@ -102,6 +102,32 @@ def _run_case(args):
     return res
 
 
+DIGEST_FILE = os.path.join(os.path.dirname(os.path.abspath(__file__)), "corpus_digest.json")
+
+
+def tree_digest(repo: str) -> str:
+    import hashlib
+
+    h = hashlib.sha256()
+    root = os.path.join(repo, "xeofs")
+    for dirpath, dirnames, filenames in os.walk(root):
+        dirnames[:] = sorted(d for d in dirnames if d != "__pycache__")
+        for fn in sorted(filenames):
+            if fn.endswith(".py"):
+                p = os.path.join(dirpath, fn)
+                h.update(os.path.relpath(p, repo).encode())
+                h.update(open(p, "rb").read())
+    return h.hexdigest()
+
+
+def corpus_is_current(repo: str) -> bool:
+    """the corpus was validated (every mutant detected, every benign variant silent) on exactly this tree"""
+    try:
+        return json.load(open(DIGEST_FILE)).get("tree") == tree_digest(repo)
+    except (OSError, ValueError):
+        return False
+
+
 def run_for(prop: str, repo: str | None = None, jobs: int | None = None):
     repo = repo or REPO
     cases = _corpus(prop)
@@ -113,6 +139,11 @@ def run_for(prop: str, repo: str | None = None, jobs: int | None = None):
         with ProcessPoolExecutor(max_workers=jobs) as ex:
             results = list(ex.map(_run_case, [(prop, c, repo, base_keys) for c in cases]))
     failed = [f"{r['kind']} {r['name']}: {r['detail']}" for r in results if r["status"] in ("FAIL", "broken-case")]
+    stale = []
+    if failed and not corpus_is_current(repo):
+        # the tree is not the one the corpus was validated on: a mutant anchored in edited code may no longer be a
+        # mutant (or a benign variant no longer benign); report, but do not call the checker broken
+        stale, failed = failed, []
     summary = {
         "mutants": sum(1 for r in results if r["kind"] == "mutant"),
         "mutants_detected": sum(1 for r in results if r["kind"] == "mutant" and r["status"] == "pass"),
@@ -120,8 +151,10 @@ def run_for(prop: str, repo: str | None = None, jobs: int | None = None):
         "benign_silent": sum(1 for r in results if r["kind"] == "benign" and r["status"] == "pass"),
         "skipped": sum(1 for r in results if r["status"] == "skipped"),
         "failed": len(failed),
+        "stale_on_edited_tree": len(stale),
+        "corpus_validated_on_this_tree": corpus_is_current(repo),
     }
-    return {"summary": summary, "cases": results, "failed": failed}
+    return {"summary": summary, "cases": results, "failed": failed, "stale": stale}
 
 
 def main(argv=None):
@@ -130,10 +163,24 @@ def main(argv=None):
     ap = argparse.ArgumentParser()
     ap.add_argument("props", nargs="*")
     ap.add_argument("--repo", default=None)
+    ap.add_argument("--write-digest", action="store_true")
     a = ap.parse_args(argv)
     mod = importlib.import_module("xsa.corpus")
     props = a.props or sorted({c["prop"] for c in mod.CASES})
     rc = 0
+    if a.write_digest:
+        repo = a.repo or REPO
+        bad = 0
+        for p in props:
+            r = run_for(p.upper(), repo)
+            bad += len(r["failed"]) + len(r["stale"]) + r["summary"]["skipped"]
+            print(p, r["summary"])
+        if bad:
+            print("corpus not clean on this tree: digest NOT written")
+            return 2
+        json.dump({"tree": tree_digest(repo), "cases": len(mod.CASES)}, open(DIGEST_FILE, "w"), indent=1)
+        print("corpus validated; digest written")
+        return 0
     for p in props:
         r = run_for(p.upper(), a.repo)
         print(p, r["summary"])
